@@ -45,20 +45,20 @@ def _comparam(name: str, default: str, text: bool = False, param_class: str = "C
              ID=f"{subset}.{name}", PARAM_CLASS=param_class, CPTYPE="STANDARD", CPUSAGE="ECU-COMM")
 
 
-def _complex_comparam(name: str, subs: Any, top: bool = False, subset: str = ref.SUBSET) -> str:
+def _complex_comparam(name: str, subs: Any, top: bool = False, subset: str = ref.SUBSET, rev: int = 0) -> str:
     """COMPLEX-COMPARAM; a sub-parameter (name, [..]) is a nested COMPLEX-COMPARAM."""
-    children = [(_comparam(s, d, param_class="UNIQUE_ID", subset=subset) if isinstance(d, str) else _complex_comparam(s, d, subset=subset))
-                for s, d in subs]
+    children = [(_comparam(s, ref.rev_text(d, rev), param_class="UNIQUE_ID", subset=subset) if isinstance(d, str)
+                 else _complex_comparam(s, d, subset=subset, rev=rev)) for s, d in subs]
     return X("COMPLEX-COMPARAM", names(name, name[3:]), *children, ID=f"{subset}.{name}", PARAM_CLASS="UNIQUE_ID",
              CPTYPE="STANDARD", CPUSAGE="ECU-COMM", ALLOW_MULTIPLE_VALUES=(True if top else None))
 
 
 @functools.lru_cache(maxsize=None)
-def subset_xml(variant: str = "flat") -> str:
+def subset_xml(variant: str = "flat", rev: int = 0) -> str:
     """The COMPARAM-SUBSET with every parameter the typed accessors read (ref.SIMPLE, ref.COMPLEX); `variant` selects
     the specification of the complex parameter (ref.VARIANTS: flat / nested COMPLEX-COMPARAM first / nested later)."""
-    simple = [_comparam(n, d["default"], bool(d.get("text"))) for n, d in ref.SIMPLE.items() if ref.subset_of(n) == ref.SUBSET]
-    cx = [_complex_comparam(n, ref.complex_subs(n, variant), top=True) for n in ref.COMPLEX if ref.subset_of(n) == ref.SUBSET]
+    simple = [_comparam(n, ref.rev_text(d["default"], rev), bool(d.get("text"))) for n, d in ref.SIMPLE.items() if ref.subset_of(n) == ref.SUBSET]
+    cx = [_complex_comparam(n, ref.complex_subs(n, variant), top=True, rev=rev) for n in ref.COMPLEX if ref.subset_of(n) == ref.SUBSET]
     inner = (names(ref.SUBSET) + X("COMPARAMS", *simple) + X("COMPLEX-COMPARAMS", *cx) +
              X("DATA-OBJECT-PROPS", _dop("D_U32", "A_UINT32", 32), _dop("D_TXT", "A_UTF8STRING", None)))
     return HEAD + X("COMPARAM-SUBSET", inner, ID=ref.SUBSET, CATEGORY="TRANSPORT") + "</ODX>"
@@ -149,7 +149,7 @@ def split_files(case: Dict[str, Any], children_first: bool, prefix: str = "h0_")
     out: Dict[str, str] = {}
     for l in order:
         out[cname[l["name"]] + ".odx-d"] = container({"name": cname[l["name"]], "layers": [l], "foreign_layer_types": ltypes})
-    out[ref.SUBSET + ".odx-cs"] = subset_xml(case.get("variant", "flat"))
+    out[ref.SUBSET + ".odx-cs"] = subset_xml(case.get("variant", "flat"), int(case.get("subset_rev", 0)))
     out[ref.SUBSET_B + ".odx-cs"] = subset_b_xml()
     out[ref.CSPEC + ".odx-c"] = cspec_xml()
     return out
@@ -158,14 +158,14 @@ def split_files(case: Dict[str, Any], children_first: bool, prefix: str = "h0_")
 def batch_files(elements: Sequence[Dict[str, Any]]) -> Dict[str, str]:
     """elements: [{types, parents, local, reverse?, variant?}] -> {file name: xml}; element k gets the name prefix h<k>_.
     All elements of a batch use the same subset variant (one COMPARAM-SUBSET per database)."""
-    variants = {e.get("variant", "flat") for e in elements}
+    variants = {(e.get("variant", "flat"), int(e.get("subset_rev", 0))) for e in elements}
     assert len(variants) == 1, variants
-    variant = variants.pop()
+    variant, rev = variants.pop()
     layers: List[Dict[str, Any]] = []
     for k, e in enumerate(elements):
         layers.extend(hierarchy_layers(e["types"], e["parents"], e["local"], f"h{k}_", bool(e.get("reverse"))))
     return {"DLC15.odx-d": container({"name": "DLC15", "layers": layers}),
-            ref.SUBSET + ".odx-cs": subset_xml(variant), ref.SUBSET_B + ".odx-cs": subset_b_xml(), ref.CSPEC + ".odx-c": cspec_xml()}
+            ref.SUBSET + ".odx-cs": subset_xml(variant, rev), ref.SUBSET_B + ".odx-cs": subset_b_xml(), ref.CSPEC + ".odx-c": cspec_xml()}
 
 
 def load_files(files: Dict[str, str]) -> Any:
